@@ -23,16 +23,16 @@ CHECK = {
     "exhaustive": {"quick": False, "thorough": False},
     "stages": [
         {"name": "hull", "variant": "asan", "harness": "c16_hull_minkowski.cpp",
-         "cases": {"quick": 4000, "thorough": 60000},
+         "cases": {"quick": 4000, "thorough": 30000},
          "params": {"mode": "hull", "bigEvery": {"quick": 400, "thorough": 1500},
                     "midEvery": {"quick": 25, "thorough": 25}},
          "case_timeout": 300},
         {"name": "degen", "variant": "asan", "harness": "c16_hull_minkowski.cpp",
-         "cases": {"quick": 400, "thorough": 4000},
+         "cases": {"quick": 400, "thorough": 2000},
          "params": {"mode": "degen"},
          "case_timeout": 120},
         {"name": "mink", "variant": "asan", "harness": "c16_hull_minkowski.cpp",
-         "cases": {"quick": 96, "thorough": 1600},
+         "cases": {"quick": 96, "thorough": 640},
          "params": {"mode": "mink"},
          "case_timeout": 600},
     ],
